@@ -493,13 +493,35 @@ class Fn:
                         ids.add(dd["d"])
         return ids
 
+    def alias_root(self, d):
+        """plumbing left behind by lib/inline.py is transparent: a `__ret_H` variable that is assigned exactly once from a
+        local, and a local initialised from such a variable, are the same variable as far as the rules are concerned"""
+        cache = self.__dict__.setdefault("_alias", {})
+        if d in cache:
+            return cache[d]
+        cache[d] = d
+        if not any(n.get("inlined") for n in self.nodes):
+            return d
+        name = next((n["n"] for n in self.nodes if n["k"] == "DeclRefExpr" and n.get("d") == d), None)
+        if name is None:
+            name = next((dd["n"] for n in self.nodes if n["k"] == "DeclStmt" for dd in n["decls"] if dd["d"] == d), "")
+        defs = [(a, rhs, op) for a, rhs, op in self.var_defs(d) if op != "addr" and not (op == "decl" and rhs is None)]
+        if len(defs) == 1 and defs[0][1] is not None and defs[0][2] in ("=", "decl"):
+            j = self.strip(defs[0][1])
+            n = self.nodes[j]
+            an = self.nodes[defs[0][0]]
+            via_out = an["k"] == "BinaryOperator" and self.nodes[self.strip(an["c"][0])].get("inl_out")
+            if n["k"] == "DeclRefExpr" and n.get("dk") in ("local", "parm") and (name.startswith("__ret_") or n["n"].startswith("__ret_") or via_out):
+                cache[d] = self.alias_root(n["d"])
+        return cache[d]
+
     def param_id(self, idx):
         return self.pids[idx] if idx < len(self.pids) else None
 
     def is_ref(self, i, d):
         j = self.strip(i)
         n = self.nodes[j]
-        return n["k"] == "DeclRefExpr" and n["d"] == d
+        return n["k"] == "DeclRefExpr" and (n["d"] == d or (d is not None and self.alias_root(n["d"]) == self.alias_root(d)))
 
     def mentions(self, i, pred):
         return any(pred(self.nodes[x]) for x in self.walk(i))
@@ -701,5 +723,15 @@ _programs = {}
 def program(config="REL", repo=None):
     key = (config, repo or REPO)
     if key not in _programs:
-        _programs[key] = Program(extract(config, repo), config)
+        d = extract(config, repo)
+        inlined = []
+        if not os.environ.get("MIVERIF_NO_INLINE"):
+            import inline
+            inlined = inline.apply(d)
+            if inlined:
+                gone = {h for _, h in inlined}
+                still = {n.get("callee") for fd in d["functions"] for n in fd["nodes"] if n["k"] == "CallExpr"}
+                d["functions"] = [fd for fd in d["functions"] if fd["name"] not in gone or fd["name"] in still]
+        _programs[key] = Program(d, config)
+        _programs[key].inlined = inlined
     return _programs[key]
